@@ -162,13 +162,13 @@ def run(R):
     R.describe('C03.R3', 'length-prefixed message layout: flag byte = is_some(encoding) as u8 (so 0 or 1), big-endian 4-byte length of the payload (C01.R1 instances re-evaluated under this id)')
     with R.guard('C03.R3'):
         fe = tonic.body('codec::encode::finish_encoding')
-        pw = mirlib.prefix_writes(fe)
-        R.eq([(w, e) for bb, w, e, v, t in pw], [(1, 'be'), (4, 'be')], 'C03.R3', 'prefix-writes', site(fe), 'prefix writes as (width, byte order)')
+        pw = prefix_layout(fe)
+        R.eq([(d['off'], d['width'], d['endian']) for d in pw], [(0, 1, 'be'), (1, 4, 'be')], 'C03.R3', 'prefix-writes', site(fe), 'prefix writes as (offset, width, byte order)')
         if len(pw) == 2:
-            flag = pw[0][3]
-            R.check(flag[0] == 'cast' and is_call(strip_refs(flag[2]), name='is_some'), 'C03.R3', 'flag-is-bool-cast', site(fe, pw[0][0]), 'flag = %s (a bool cast: 0 or 1)' % show(flag))
-            ln = pw[1][3]
-            R.check('SubWithOverflow' in show(ln) and 'const(%d)' % W['header_size'] in show(ln), 'C03.R3', 'length=payload', site(fe, pw[1][0]), 'length = %s' % show(ln))
+            flag = bool_source(pw[0]['value'])
+            R.check(flag is not None and (is_call(flag, name='is_some') or (flag[0] == 'arg' and fe.ty(flag[1]) == 'bool')), 'C03.R3', 'flag-is-bool-cast', site(fe, pw[0]['bb']), 'flag = %s (made from a bool: 0 or 1)' % show(pw[0]['value'])[:100])
+            ln = payload_len_source(pw[1]['value'])
+            R.check('SubWithOverflow' in show(ln) and 'const(%d)' % W['header_size'] in show(ln), 'C03.R3', 'length=payload', site(fe, pw[1]['bb']), 'length = %s' % show(ln)[:100])
 
     # ---------------------------------------------------------------- R4 announced encoding
     R.describe('C03.R4', 'the encoding announced in grpc-encoding is the one handed to the encoder, whose flag is is_some(effective encoding); tokens/codecs per spec table')
@@ -178,7 +178,8 @@ def run(R):
         bb, t = pn.call1(name='encode_item')
         R.check('compression_encoding' in show(pn.origin(t['args'][3])), 'C03.R4', 'effective-encoding-to-encode_item', site(pn, bb), 'encoding = %s' % show(pn.origin(t['args'][3])))
         ei = tonic.body('codec::encode::encode_item')
-        sw = [x for x in sorted(ei.live_blocks()) if ei.term(x)['k'] == 'switch' and show(ei.origin(ei.term(x)['on'])) == 'discr(arg4:compression_encoding)']
+        enc_n = param_of_type(ei, r'Option<.*CompressionEncoding>')
+        sw = [x for x in sorted(ei.live_blocks()) if ei.term(x)['k'] == 'switch' and ei.origin(ei.term(x)['on'])[0] == 'discr' and strip_refs(ei.origin(ei.term(x)['on'])[1])[:2] == ('arg', enc_n)]
         R.check(len(sw) == 1, 'C03.R4', 'compress-iff-encoding', site(ei), 'switch on compression_encoding: %d' % len(sw))
         if sw:
             cb, ct = ei.call1(pat='compression::compress')
@@ -193,7 +194,7 @@ def run(R):
             okn = all(cb not in ei.reachable(t_, removed={sw[0]}) for t_ in none_t)
             R.check(okn, 'C03.R4', 'no-compress-on-none-arm', site(ei, cb), 'without an encoding (flag 0) compress() is unreachable: %r' % okn)
             st = strip_refs(ei.origin(ct['args'][0]))
-            okenc = st[0] == 'agg' and term_contains(st[2][0], lambda x: x and x[0] == 'variant' and x[2] == 'Some') and 'arg4' in show(st[2][0])
+            okenc = st[0] == 'agg' and term_contains(st[2][0], lambda x: x and x[0] == 'variant' and x[2] == 'Some') and mentions_arg(st[2][0], enc_n)
             R.check(okenc, 'C03.R4', 'compress-with-that-encoding', site(ei, cb), 'settings.encoding = %s' % show(st[2][0] if st[0] == 'agg' else st))
 
     if R.tier == 'thorough':
